@@ -351,6 +351,7 @@ inductive Op where
   | mrem (c k : Nat)
   | del (c : Nat)
   | bassign (c d : Nat)
+  | read (c : Nat)                      -- len / iteration / get / mem / hash / eq: no ownership effect
 deriving Repr, Inhabited
 
 structure World where
@@ -525,6 +526,11 @@ def step (w : World) : Op → World × Obs
     match lookup w.objs c, lookup w.objs d with
     | some (.cell _), some (.cell t) => commit w c true (some (.cell t)) { val := () } [c, d]
     | _, _ => badOp w
+  | .read c =>
+    -- the read-only entry points (Len, Iter, Get.get, Get.mem, Hash, Cmp; `deref` for a Box) touch no element
+    match lookup w.objs c with
+    | some x => commit w c x.isBox (some x) { val := () } [c]
+    | none => badOp w
 
 /-- run a history; the observations in order -/
 def run : World → List Op → World × List Obs
